@@ -98,11 +98,21 @@ def null_tests(tree):
 class Analyzer(object):
 
     def __init__(self, fdef, is_nullable, nonnull_calls=(),
-                 nullable_calls=()):
+                 nullable_calls=(), method_writes=None,
+                 none_only_for_none=()):
         self.fdef = fdef
         self.is_nullable = is_nullable      # text -> bool
         self.nonnull_calls = set(nonnull_calls)
         self.nullable_calls = set(nullable_calls)
+        # method name -> set of self attributes it may (transitively)
+        # assign; None: unknown, a call kills every fact on the receiver
+        self.method_writes = method_writes
+        # callee names f with the summary "f(x) is None only if x is not
+        # None" (f(None) is never None): after
+        #   r = obj.f(x); if r is not None: <exit>
+        # x is known not to be None
+        self.none_only_for_none = set(none_only_for_none)
+        self.derived = {}
         self.sites = []
 
     def run(self):
@@ -179,14 +189,24 @@ class Analyzer(object):
                 facts.discard(f)
 
     def kill_calls(self, e, facts):
-        """a call of a method on receiver R may reassign R's fields"""
+        """a call of a method on receiver R may reassign R's fields; for
+        methods of the analysed class the set of fields they may assign
+        is known (method_writes)"""
         for n in ast.walk(e):
             if isinstance(n, ast.Call) and isinstance(
                     n.func, ast.Attribute) and is_ref(n.func.value):
                 recv = text(n.func.value)
+                writes = None
+                if recv == 'self' and self.method_writes is not None:
+                    writes = self.method_writes.get(n.func.attr)
                 for f in list(facts):
-                    if f.startswith(recv + '.'):
-                        facts.discard(f)
+                    if not f.startswith(recv + '.'):
+                        continue
+                    if writes is not None:
+                        attr = f[len(recv) + 1:].split('.')[0].split('[')[0]
+                        if attr not in writes:
+                            continue
+                    facts.discard(f)
 
     def assigned_in(self, stmts):
         out = []
@@ -230,6 +250,11 @@ class Analyzer(object):
             a = self.block(st.body, tf)
             b = self.block(st.orelse, ff)
             ea, eb = self.exits(st.body), self.exits(st.orelse)
+            if ea and not eb:
+                # r = f(x); if r is not None: <exit>  =>  x is not None
+                for r in implied_true(st.test):
+                    if r in self.derived:
+                        b = set(b) | {self.derived[r]}
             if ea and eb:
                 return set(facts)
             if ea:
@@ -285,11 +310,20 @@ class Analyzer(object):
                         self.deref(x.value, x, facts)
                         self.expr(x.value, facts)
                     self.kill(facts, x)
+            for t in st.targets:
+                tt_ = text(t)
+                for r, x in list(self.derived.items()):
+                    if r == tt_ or x == tt_ or x.startswith(tt_ + '.'):
+                        del self.derived[r]
             if len(st.targets) == 1 and is_ref(st.targets[0]):
                 tt = text(st.targets[0])
                 v = st.value
                 if self.value_nonnull(v, facts):
                     facts.add(tt)
+                if isinstance(v, ast.Call) and text(v.func).split('.')[-1] \
+                        in self.none_only_for_none and len(v.args) == 1 \
+                        and not v.keywords and is_ref(v.args[0]):
+                    self.derived[tt] = text(v.args[0])
                 # chained `a = b = c`: handled by targets loop
             return facts
         if isinstance(st, ast.AugAssign):
